@@ -33,7 +33,9 @@ func VerifC13Kind(pc net.PacketConn) string {
 // VerifC13SetRand replaces the time-seeded salt source of the Salamander obfuscator
 // inside a wrapped connection by a seeded one, so that a run is reproducible. Nothing
 // else of the object is touched; the salt actually used is read off the wire by the
-// harness and handed to the model.
+// harness and handed to the model. Called right after construction, before the object is
+// shared with any goroutine, so no lock is taken (and the shim does not depend on how the
+// obfuscator locks).
 func VerifC13SetRand(pc net.PacketConn, seed int64) bool {
 	var opc *obfsPacketConn
 	switch c := pc.(type) {
@@ -48,8 +50,6 @@ func VerifC13SetRand(pc net.PacketConn, seed int64) bool {
 	if !ok {
 		return false
 	}
-	ob.lk.Lock()
 	ob.RandSrc = rand.New(rand.NewSource(seed))
-	ob.lk.Unlock()
 	return true
 }
